@@ -19,7 +19,7 @@ type Case struct {
 	Neg   bool   `json:"support_negative_indices"`
 }
 
-var namePool = []string{"a", "b", "x/y", "m~n", "~1", "é", "k k", "<&>", "n0", "01x", "a/b~c", "e f", "c", "d"}
+var namePool = []string{"\u0663", "\uff11\uff12", "a", "b", "x/y", "m~n", "~1", "é", "k k", "<&>", "n0", "01x", "a/b~c", "e f", "c", "d"}
 
 func draw(t *rapid.T) Case {
 	doc := gen.Default.Root().Draw(t, "doc")
